@@ -265,8 +265,15 @@ Fixpoint add_name (n : bytes) (l : list bytes) : list bytes :=
   | x :: r => if bytes_eqb x n then x :: r else x :: add_name n r
   end.
 
+(* str.rstrip('\r\n') *)
+Definition rstrip_nl (b : bytes) : bytes :=
+  fold_right (fun c acc => match acc with
+                           | [] => if (c =? 13) || (c =? 10) then [] else [c]
+                           | _ => c :: acc
+                           end) [] b.
+
 Definition parse_subs (b : bytes) : list bytes :=
-  fold_left (fun acc l => add_name (rstrip l) acc) (lines (unl b)) [].
+  fold_left (fun acc l => add_name (rstrip_nl l) acc) (lines (unl b)) [].
 
 Fixpoint nodup_names (l : list bytes) : bool :=
   match l with
